@@ -18,7 +18,7 @@ RULE = (
     "lazily computed attributes, compute_face_areas / calculate_total_face_area with any rule, order and coordinate kind, "
     "to_xarray in three formats, to_geodataframe / to_polycollection / to_linecollection with drawn arguments, get_ball_tree / "
     "get_kd_tree in every configuration plus a probe query, chunk, isel, subset.bounding_circle, a constant-latitude "
-    "cross-section, get_dual. Each operation's result is compared at once with the result of the same call on a grid freshly "
+    "cross-section, get_dual, and data-array operations that read the grid (gradient, differences, integrate, topological means, remapping from and onto the grid, data exports, node selection). Each operation's result is compared at once with the result of the same call on a grid freshly "
     "built from the same source in the same process (the property's own reference); exported datasets may only add derived "
     "variables, each equal to what the fresh grid derives; every module-level value / container of the uxarray package (private names included) "
     "is deep-compared with their import-time snapshot after every case. Half of the shards run with "
@@ -48,7 +48,9 @@ ATTRS = [
 ]
 RULES = [["triangular", 1], ["triangular", 4], ["triangular", 8], ["triangular", 12], ["gaussian", 2], ["gaussian", 5], ["gaussian", 10]]
 TREE_CFG = [["ball", "spherical", "haversine"], ["ball", "cartesian", "euclidean"], ["kd", "cartesian", "minkowski"], ["kd", "spherical", "minkowski"]]
-OPS = ["attr", "attr", "attr", "attr", "areas", "total_area", "to_xarray", "gdf", "poly", "line", "tree", "chunk", "isel", "circle", "const_lat", "dual", "repr", "validate", "copy", "eq"]
+OPS = ["attr", "attr", "attr", "attr", "areas", "total_area", "to_xarray", "gdf", "poly", "line", "tree", "chunk", "isel", "circle", "const_lat", "dual", "repr", "validate", "copy", "eq", "uxda", "uxda"]
+# operations of data arrays that read the grid they are attached to (the arrays themselves are fresh each time)
+UXDA = ["gradient", "difference_face", "difference_node", "integrate", "topological_mean_face", "topological_mean_edge", "remap_from", "remap_onto", "da_gdf", "da_poly", "isel_node"]
 
 
 def shard_env(tier, k, n):
@@ -108,6 +110,9 @@ def _op(draw, n_grids):
         d["r"] = draw(st.floats(20.0, 120.0))
     elif op == "const_lat":
         d["lat"] = draw(st.floats(-70.0, 70.0))
+    elif op == "uxda":
+        d["what"] = draw(sampled_from(UXDA))
+        d["ct"] = draw(sampled_from(["spherical", "cartesian"]))
     return d
 
 
@@ -153,7 +158,7 @@ def classify(case):
         labs.append("source:" + s["kind"])
     touched = set()
     for o in case["ops"]:
-        labs.append("op:" + o["op"])
+        labs.append("op:" + o["op"] + (":" + o["what"] if o["op"] == "uxda" else ""))
         touched.add(o["g"])
     if len(touched) > 1:
         labs.append("interleaved-grids")
@@ -381,6 +386,37 @@ def _apply(g, o):
     if op == "copy":
         c = g.copy()
         return _norm([np.asarray(c.face_node_connectivity.values), np.asarray(c.node_lon.values), np.asarray(c.node_lat.values), bool(c == g)])
+    if op == "uxda":
+        ux = build.ux()
+        w = o["what"]
+        fda = ux.UxDataArray(np.arange(g.n_face, dtype=float) * 1.5 - 2.0, dims=["n_face"], uxgrid=g, name="f")
+        nda = ux.UxDataArray(np.arange(g.n_node, dtype=float) * 0.5 + 1.0, dims=["n_node"], uxgrid=g, name="n")
+        if w == "gradient":
+            return _norm(np.asarray(fda.gradient().values))
+        if w == "difference_face":
+            return _norm(np.asarray(fda.difference(destination="edge").values))
+        if w == "difference_node":
+            return _norm(np.asarray(nda.difference(destination="edge").values))
+        if w == "integrate":
+            return _norm(np.asarray(fda.integrate().values))
+        if w.startswith("topological_mean"):
+            return _norm(np.asarray(nda.topological_mean(destination=w.rsplit("_", 1)[1]).values))
+        if w in ("remap_from", "remap_onto"):
+            other = build.grid_from_mesh(meshgen.cubed_sphere(2))
+            if w == "remap_from":
+                return _norm(np.asarray(fda.remap.nearest_neighbor(other, remap_to="nodes", coord_type=o["ct"]).values))
+            oda = ux.UxDataArray(np.arange(other.n_face, dtype=float), dims=["n_face"], uxgrid=other, name="o")
+            return _norm(np.asarray(oda.remap.inverse_distance_weighted(g, remap_to="face centers", coord_type=o["ct"], k=3).values))
+        if w == "da_gdf":
+            gdf = fda.to_geodataframe()
+            return _norm([list(gdf.columns), np.asarray(gdf["f"], float)])
+        if w == "da_poly":
+            pc = fda.to_polycollection()
+            return _norm([np.asarray(p.vertices) for p in pc.get_paths()] + [np.asarray(pc.get_array(), float)])
+        if w == "isel_node":
+            r = nda.isel(n_node=[0, g.n_node - 1])
+            return _norm([np.asarray(r.values), np.asarray(r.uxgrid.face_node_connectivity.values)])
+        raise AssertionError(w)
     if op == "eq":
         return _norm([bool(g == g), bool(g != g)])
     if op == "dual":
@@ -448,7 +484,7 @@ def run_case(case, ctx):
     for si, o in enumerate(case["ops"]):
         gi = o["g"] % len(grids)
         g = grids[gi]
-        tag = o["op"] + (":" + o["name"] if o["op"] == "attr" else (":" + o["fmt"] if o["op"] == "to_xarray" else ""))
+        tag = o["op"] + (":" + o["name"] if o["op"] == "attr" else (":" + o["fmt"] if o["op"] == "to_xarray" else (":" + o["what"] if o["op"] == "uxda" else "")))
         hist = "first" if not history else ("after-" + history[-1])
         site = f"{tag}:{case['sources'][gi]['kind']}:{hist}:{jit}"
         got = _apply_or_raise(g, o)
